@@ -76,3 +76,8 @@ def bint_floordiv_range(o, k):
     if p is None or o.get("kind") != "range":
         return False
     return any(n[0] == "binary" and n[1] == "floordiv" and _is_int(n[2]) and _is_int(n[3]) for n in _nodes(p))
+
+
+def never(o, k):
+    """findings matched by a solver-level predicate inside the check (see checks/*.py), not structurally"""
+    return False
